@@ -26,6 +26,7 @@ type c10Entry struct {
 	tIdx     int // revocation time index 0..2
 	inv      int // 0 none, 1 before, 2 equal, 3 after the signing time
 	crit     bool
+	invCrit  bool // the invalidity-date extension itself is flagged critical (a known extension: honoured all the same)
 }
 
 func (e c10Entry) String() string {
@@ -37,6 +38,9 @@ func (e c10Entry) String() string {
 	cr := ""
 	if e.crit {
 		cr = " critExt"
+	}
+	if e.invCrit {
+		cr += " invDateCritical"
 	}
 	return fmt.Sprintf("%s/r%d/t%d%s%s", s, e.reason, e.tIdx+1, inv, cr)
 }
@@ -189,6 +193,16 @@ func c10Scenarios(tier mc.Tier) []mc.Scenario {
 		small := c10Alphabet([]int{1, 6, 8}, []int{0, 1}, []int{0, 3}, []bool{false, true})
 		cfgs = append(cfgs, cfg{"small-alphabet", small, 3})
 	}
+	// the invalidity-date extension flagged critical: entries of the small alphabet that carry a date, twice (flag off / on)
+	var knownCrit []c10Entry
+	for _, e := range c10Alphabet([]int{1, 6, 8}, []int{0, 1}, []int{1, 3}, []bool{false}) {
+		knownCrit = append(knownCrit, e)
+		if e.matching {
+			e.invCrit = true
+			knownCrit = append(knownCrit, e)
+		}
+	}
+	cfgs = append(cfgs, cfg{"invalidity-date-flagged-critical", knownCrit, 1}, cfg{"invalidity-date-flagged-critical", knownCrit, 2})
 	var out []mc.Scenario
 	small2 := c10Alphabet([]int{1, 6, 8}, []int{0, 1}, []int{0, 3}, []bool{false, true})
 	for _, cf := range []cfg{{"full-alphabet", full, 1}, {"small-alphabet", small2, 2}} {
@@ -236,7 +250,7 @@ func c10Forge(w *crlWorld, entries []c10Entry, delta bool, hasDelta bool) *x509.
 		spec.DeltaInd = &ind
 	}
 	for _, e := range entries {
-		ce := pki.CRLEntry{Serial: big.NewInt(424242), Reason: e.reason, RevokedAt: c10T[e.tIdx], UnknownCrit: e.crit}
+		ce := pki.CRLEntry{Serial: big.NewInt(424242), Reason: e.reason, RevokedAt: c10T[e.tIdx], UnknownCrit: e.crit, InvalidityCritical: e.invCrit}
 		if e.matching {
 			ce.Serial = w.leaf.X.SerialNumber
 		}
@@ -263,7 +277,9 @@ var (
 	c10EmptyDelta     *x509.RevocationList
 )
 
-func c10Body(c *mc.Ctx, alpha []c10Entry, L, split int, stSet bool) { c10BodyVia(c, alpha, L, split, stSet, false) }
+func c10Body(c *mc.Ctx, alpha []c10Entry, L, split int, stSet bool) {
+	c10BodyVia(c, alpha, L, split, stSet, false)
+}
 
 func c10BodyVia(c *mc.Ctx, alpha []c10Entry, L, split int, stSet bool, fallback bool) {
 	w := c10World()
